@@ -139,6 +139,7 @@ func genC14(c *Ctx) {
 		}
 	}
 	c14Fragment(c, n)
+	c14CutStreams(c)
 	c14Arrivals(c, n)
 	c14Special(c)
 }
@@ -371,7 +372,14 @@ func c14Arrivals(c *Ctx, n int) {
 			kind := ""
 			refOut := []byte(nil)
 			piece := c.genPayload(1 + c.R.Intn(4))
-			switch x := c.R.Intn(12); {
+			switch x := c.R.Intn(13); {
+			case x == 12:
+				// a whole message that is not a fragment and is rejected: it ends the fragment stream like any other
+				kind = "rejected-encoded"
+				m = []byte([]string{"?OTR:AAMD!!!!.", "?OTR:AAID.", "?OTR:AAIK", "?OTR:.", "?OTR:AAEDAAAA."}[c.R.Intn(5)])
+				ref.buf, ref.k, ref.n = nil, 0, 0
+				refOut = nil
+				k = 0
 			case x < 5: // next in sequence
 				k++
 				if k > tot {
@@ -456,6 +464,58 @@ func c14Arrivals(c *Ctx, n int) {
 		c.AddCase(65, "Receive(v2 fragment sequence)", VL(outs), VL(ms))
 		if s < 2 {
 			c.Sample(trace)
+		}
+	}
+}
+
+// directed: a fragment stream cut at every position by a whole message that is rejected (or by plain text); what
+// follows the cut must not complete the old stream
+func c14CutStreams(c *Ctx) {
+	cuts := []string{"?OTR:AAMD!!!!.", "?OTR:AAID.", "?OTR:AAIK", "?OTR:.", "?OTR:AAEDAAAA.", "hello"}
+	for _, cut := range cuts {
+		for tot := 2; tot <= 4; tot++ {
+			for at := 1; at < tot; at++ {
+				conv := newPlainConv(2, 0)
+				var msgs [][]byte
+				var outs []Val
+				for k := 1; k <= tot; k++ {
+					msgs = append(msgs, []byte(fmt.Sprintf("?OTR,%05d,%05d,p%d,", k, tot, k)))
+					if k == at {
+						msgs = append(msgs, []byte(cut))
+					}
+				}
+				ok := true
+				for i, m := range msgs {
+					var plain []byte
+					o := guard(func() Val {
+						p, _, _ := conv.Receive(m)
+						plain = p
+						if p == nil {
+							return VNone{}
+						}
+						return B(p)
+					})
+					outs = append(outs, o)
+					want := []byte(nil)
+					if string(m) == "hello" {
+						want = m
+					}
+					if !bytes.Equal(plain, want) {
+						c.Violate("delivery-differs-from-reference", "cut-stream", fmt.Sprintf("message %d of a fragment stream cut by %q: Receive returned %q, expected %q", i, cut, plain, want), map[string]string{"cut": cut, "total": fmt.Sprint(tot), "after": fmt.Sprint(at)})
+						ok = false
+						break
+					}
+				}
+				if !ok {
+					continue
+				}
+				ms := make([]Val, len(msgs))
+				for i, m := range msgs {
+					ms[i] = B(m)
+				}
+				c.AddCase(65, "Receive(v2 fragment sequence)", VL(outs), VL(ms))
+				c.Count("arrival:cut-stream")
+			}
 		}
 	}
 }
